@@ -1,0 +1,98 @@
+//go:build verif
+
+package sstls
+
+// Contracts for the verification machinery in /verif (govc).  This file is
+// comment-only and is compiled only with -tags verif.
+
+// ---- fingerprint = base64std(sha256(PKIX(SubjectPublicKeyInfo of the cert))) (C05)
+//@ func PubkeyFingerprint(cert) (fp, err)
+//@   props C05 C13
+//@   ghost der []byte = nil
+//@   ghost derErr bool = false
+//@   ghost sum [32]byte
+//@   ghost out string = ""
+//@   ghost stage int = 0
+//@   on call x509.MarshalPKIXPublicKey(k) (b, e): assert(stage == 0 && k == cert.PublicKey, "hashes_the_certificates_public_key"); der = b; derErr = e != nil; stage = 1
+//@   on call sha256.Sum256(d) (h): assert(stage == 1 && !derErr && d == der, "sha256_of_the_pkix_encoding"); sum = h; stage = 2
+//@   on call base64.Encoding.EncodeToString(enc, s) (r): assert(stage == 2 && enc == base64.StdEncoding && len(s) == 32 && mem(s) == sum, "standard_base64_of_the_whole_digest"); out = r; stage = 3
+//@   ensures marshal_error_is_error: imp(derErr, err != nil)
+//@   ensures fingerprint: imp(!derErr, err == nil && stage == 3 && fp == out)
+
+//@ func PubkeyFingerprintTLS(cert) (fp, err)
+//@   props C05
+//@   ghost inner string = ""
+//@   ghost innerErr error = nil
+//@   ghost n int = 0
+//@   on call PubkeyFingerprint(c) (f, e): assert(c == cert.Leaf && c != nil, "fingerprint_of_the_leaf"); inner = f; innerErr = e; n++
+//@   ensures no_leaf_is_error: imp(cert.Leaf == nil, err != nil && n == 0)
+//@   ensures leaf: imp(cert.Leaf != nil, n == 1 && fp == inner && err == innerErr)
+
+// Listen: the fingerprint published is that of the very certificate value
+// handed to crypto/tls as the only certificate.
+//@ func Listen(net, address, subject, lifespan, certFile) (l, err)
+//@   props C05 C08
+//@   ghost cert tls.Certificate
+//@   ghost certErr bool = false
+//@   ghost fpv string = ""
+//@   ghost fpErr bool = false
+//@   ghost ln net.Listener = nil
+//@   ghost lnErr bool = false
+//@   ghost stage int = 0
+//@   on call GetCertificate(sub, d, ip, life, cf) (c, e): assert(stage == 0 && cf == certFile, "certificate_from_the_configured_cache"); cert = c; certErr = e != nil; stage = 1
+//@   on call PubkeyFingerprintTLS(c) (f, e): assert(stage == 1 && !certErr && c == cert, "fingerprint_of_the_certificate_obtained"); fpv = f; fpErr = e != nil; stage = 2
+//@   on call tls.Listen(n, a, conf) (li, e): assert(stage == 2 && !fpErr && len(conf.Certificates) == 1 && conf.Certificates[0] == cert && n == net && a == address, "tls_serves_exactly_the_fingerprinted_certificate"); ln = li; lnErr = e != nil; stage = 3
+//@   ensures usable: imp(err == nil, l.Listener != nil)
+//@   ensures errors: imp(certErr || fpErr || lnErr, err != nil)
+//@   ensures listener: imp(!certErr && !fpErr && !lnErr, err == nil && stage == 3 && l.Fingerprint == fpv && l.Listener == ln && l.Listener != nil)
+
+// ---- certificate cache (C08)
+//@ func GetCertificate(subject, dnsNames, ipAddresses, lifespan, certFile) (cert, err)
+//@   props C08
+//@   ghost loaded tls.Certificate
+//@   ghost loadErr error = nil
+//@   ghost nLoad int = 0
+//@   ghost gen tls.Certificate
+//@   ghost genErr bool = false
+//@   ghost nGen int = 0
+//@   ghost cpem []byte = nil
+//@   ghost kpem []byte = nil
+//@   ghost nSave int = 0
+//@   ghost saveErr bool = false
+//@   on call LoadCachedCertificate(cf) (c, e): assert(cf == certFile && certFile != "" && nLoad == 0 && nGen == 0, "cache_consulted_first"); loaded = c; loadErr = e; nLoad++
+//@   on call GenerateSelfSignedCertificate(sub, d, ip, life) (cp, kp, c, e): assert(nGen == 0 && (certFile == "" || (nLoad == 1 && loadErr != nil && errors.Is(loadErr, fs.ErrNotExist))), "generate_only_when_no_cache_file_exists"); gen = c; genErr = e != nil; cpem = cp; kpem = kp; nGen++
+//@   on call SaveCertificate(cf, cp, kp) (e): assert(cf == certFile && certFile != "" && nGen == 1 && !genErr && cp == cpem && kp == kpem && nSave == 0, "saves_exactly_the_generated_pair_to_the_cache_path"); saveErr = e != nil; nSave++
+//@   ensures existing_cache_used_never_rewritten: imp(certFile != "" && nLoad == 1 && loadErr == nil, err == nil && cert == loaded && nGen == 0 && nSave == 0)
+//@   ensures damaged_cache_is_an_error: imp(certFile != "" && loadErr != nil && !errors.Is(loadErr, fs.ErrNotExist), err != nil && nGen == 0 && nSave == 0)
+//@   ensures missing_cache_regenerated_and_saved: imp(certFile != "" && loadErr != nil && errors.Is(loadErr, fs.ErrNotExist), nGen == 1 && imp(!genErr, nSave == 1) && imp(!genErr && !saveErr, err == nil && cert == gen) && imp(genErr || saveErr, err != nil))
+//@   ensures no_cache_configured: imp(certFile == "", nLoad == 0 && nSave == 0 && nGen == 1 && imp(!genErr, err == nil && cert == gen))
+//@   ensures consulted: imp(certFile != "", nLoad == 1)
+
+//@ func LoadCachedCertificate(certFile) (cert, err)
+//@   props C08 C05
+//@   ghost readErr error = nil
+//@   ghost nRead int = 0
+//@   ghost pair tls.Certificate
+//@   ghost pairErr bool = false
+//@   ghost nPair int = 0
+//@   ghost leaf *x509.Certificate = nil
+//@   ghost leafErr bool = false
+//@   on call txtar.ParseFile(f) (a, e): assert(f == certFile && nRead == 0, "reads_the_cache_file"); readErr = e; nRead++
+//@   on call tls.X509KeyPair(c, k) (p, e): assert(readErr == nil && len(c) != 0 && len(k) != 0, "needs_both_members"); pair = p; pairErr = e != nil; nPair++
+//@   on call x509.ParseCertificate(der) (c, e): assert(nPair == 1 && !pairErr && der == pair.Certificate[0], "leaf_is_the_pairs_first_certificate"); leaf = c; leafErr = e != nil
+//@   ensures has_leaf: imp(err == nil, cert.Leaf != nil)
+//@   ensures not_exist_only_from_the_read: imp(err != nil && errors.Is(err, fs.ErrNotExist), readErr != nil && errors.Is(readErr, fs.ErrNotExist))
+//@   ensures read_error_is_error: imp(readErr != nil, err != nil)
+//@   ensures bad_pair_is_error: imp(pairErr || leafErr, err != nil)
+//@   ensures success: imp(err == nil, nPair == 1 && !pairErr && !leafErr && cert.Leaf == leaf && leaf != nil && cert.Certificate == pair.Certificate && cert.PrivateKey == pair.PrivateKey)
+
+//@ func SaveCertificate(certFile, certPEM, keyPEM) (err)
+//@   props C08
+//@   ghost mkErr bool = false
+//@   ghost nMk int = 0
+//@   ghost wrErr bool = false
+//@   ghost nWr int = 0
+//@   on call os.MkdirAll(d, mode) (e): assert(nMk == 0 && nWr == 0 && d == filepath.Dir(certFile) && mode == 0700, "directories_owner_only"); mkErr = e != nil; nMk++
+//@   on call os.WriteFile(name, data, mode) (e): assert(nMk == 1 && !mkErr && nWr == 0 && name == certFile && mode == 0600, "cache_file_owner_only"); wrErr = e != nil; nWr++
+//@   ensures errors: imp(mkErr || wrErr, err != nil)
+//@   ensures written_once: imp(!mkErr, nWr == 1) && imp(!mkErr && !wrErr, err == nil)
